@@ -32,10 +32,10 @@ def printX (P : Expr → List Tok) : XQuery → List Tok
     lit "pr" ++ bndToks P b ++ (if box then lit "box" else lit "diamond") ++ P pred ++ lit "geq" ++ [.atom (.dbl p)]
   | .cmp b1 box1 p1 b2 box2 p2 =>
     -- the run counts are not printed (the builder refuses them)
-    lit "pr" ++ kindToks P b1.kind ++ P b1.bound ++ lit "cmpOpen" ++ pathToks box1 ++ P p1 ++ lit "geq" ++
-      (lit "pr" ++ kindToks P b2.kind ++ P b2.bound ++ lit "cmpOpen" ++ pathToks box2 ++ P p2 ++ lit "close")
+    lit "pr" ++ boundToks P b1 ++ lit "cmpOpen" ++ pathToks box1 ++ P p1 ++ lit "geq" ++
+      (lit "pr" ++ boundToks P b2 ++ lit "cmpOpen" ++ pathToks box2 ++ P p2 ++ lit "close")
   | .reach b l n pred =>
-    lit "sim" ++ kindToks P b.kind ++ P b.bound ++ lit "runs" ++ .atom (.nat (b.runs.getD 1)) ::
+    lit "sim" ++ boundToks P b ++ lit "runs" ++ .atom (.nat (b.runs.getD 1)) ::
       (lit "simOpen" ++ printList P l ++ lit "reachOpen" ++ .atom (.nat n) :: (lit "reachSep" ++ P pred))
 
 def xprint (q : XQuery) : List Tok := printX (PrintModel.lprint genData mt) q
